@@ -333,7 +333,13 @@ pub fn replay_history<S: Spec>(spec: &S, init: usize, hist: &[S::Op]) -> Result<
                 return Err(format!("{kind}|panic@{}", p.tag()));
             }
             Ok(Err(d)) => return Err(d.key),
-            Ok(Ok(None)) => return Err("disabled".into()),
+            Ok(Ok(None)) => {
+                // a transition that changes nothing may still have reported (soft) divergences
+                if !softs.is_empty() {
+                    return Err(softs.join("\n"));
+                }
+                return Err("disabled".into());
+            }
             Ok(Ok(Some(m2))) => {
                 if let Some(d) = spec.invariants(&sut, &m2).into_iter().next() {
                     return Err(d.key);
